@@ -27,18 +27,14 @@ def _extra(ctx, spec):
 
 PROP = dict(
     level='proof',
-    regen=['consts', 'csvprofile', 'go2lean:basetype'],
-    go2lean_diff=[],
+    regen=['consts', 'csvprofile'],
     theorems=['Fit.C19.C19_columns', 'Fit.C19.C19_columns_trim', 'Fit.C19.C19_tables', 'Fit.C19.C19_field_roundtrip_raw', 'Fit.C19.C19_raw_roundtrip_partial', 'Fit.C19.C19_scaled_roundtrip', 'Fit.C19.C19_sequences_partial',
               'Fit.C19.C19_scalar_roundtrip_raw', 'Fit.C19.C19_scaled_roundtrip_profile', 'Fit.C19.C19_array_roundtrip', 'Fit.C19.C19_field_roundtrip_value',
               'Fit.C19.C19_unknown_field_roundtrip', 'Fit.C19.C19_dev_field_roundtrip', 'Fit.C19.C19_dev_float_scale_fixed', 'Fit.C19.C19_subfield_roundtrip', 'Fit.C19.C19_removes_expansion_targets',
-              'Fit.C19.C19_roundtrip_partial',
-              # tie by translation (FitProps/C19Go2Lean.lean, notes/go2lean.md)
-              'Fit.C19.C19_go2lean_names', 'Fit.C19.C19_go2lean_fromString_other', 'Fit.C19.C19_go2lean_string_other'],
+              'Fit.C19.C19_roundtrip_partial'],
     families=[dict(name='csv', prop=True)],
     extra=_extra,
     trusted_base=STD_TRUST + [
-        "translators/go2lean (Go→Lean for a small subset of Go, notes/go2lean.md) re-translates BaseType.String / basetype.FromString from the current source on every run; the agreement theorems *_go2lean_* state that the translated functions equal the hand-written model functions for all arguments; trusted: the translator's rendering of the subset (go/types computes constants and types) and FitModel/GoPrelude.lean",
         "the profile as the converters see it (factory fields: name, units, base type, array, scale/offset bits, component targets, sub-fields and their maps; MesgNum.String(); the reader's mesgNumLookup / fieldNumLookup through the verif hooks) is printed from the compiled packages on every run (Generated/CsvProfile.lean)",
         "text layer assumed, not modelled: strconv (decimal ↔ integer, shortest float text ↔ float64), encoding/csv quoting, unicode.IsPrint",
         "the arithmetic of the scaled mode is a parameter of the model, instantiated by Arith.so = kit/scaleoffset + fitcsv.parseValue over the bit-exact binary64 of FitModel/F64.lean (the definitions of C12); the driver runs it and the `csvarith` operations compare it with fitcsv.VerifFormat / VerifParseValue on every (base type, scale, offset) of the profile; C12_csv discharges the round-trip hypothesis for every scaled profile field (integer types up to 32 bits; no 64-bit field of the profile is scaled)",
@@ -54,3 +50,14 @@ TEXT = dict(
     text='C19_columns / _trim for any list of lines; C19_tables (regenerated profile and lookup tables consistent, kernel-decided); cell level: C19_scalar_roundtrip_raw, C19_array_roundtrip, C19_field_roundtrip_raw / _value, C19_scaled_roundtrip_profile (default scaled mode, unconditional for the profile: arithmetic discharged by C12), C19_unknown_field_roundtrip (verbose), C19_dev_field_roundtrip, C19_subfield_roundtrip (substitution, placeholder, reversal), C19_removes_expansion_targets; file level: C19_roundtrip_partial / C19_sequences_partial for chains of files whose messages consist of known fields (scalar/array, raw/unscaled/scaled) and unknown fields/messages (kept with verbose, dropped without), any number of files; the model is compared with the real converters on generated FIT files over all profile messages (CSV structure, written messages, sequences) and the property predicate is evaluated on the implementation output.',
     note='Partial: the text layer (strconv, encoding/csv, unicode) is assumed; developer fields and sub-field reversal are proved cell by cell, their message-level composition is tied by the correspondence (C19_roundtrip_full stays a def).',
 )
+
+# --- tie by translation (translators/go2lean, notes/go2lean.md; agreement theorems in lean/FitProps/C19Go2Lean.lean).
+# Kept as a separate block so that it never collides with edits of the dictionary above.
+PROP['regen'] = PROP['regen'] + ['go2lean:basetype']
+PROP['go2lean_diff'] = []      # lean/Go2LeanDiff/<Topic>.lean: search for a differing argument when an agreement theorem breaks
+PROP['theorems'] = PROP['theorems'] + [
+    'Fit.C19.C19_go2lean_names',
+    'Fit.C19.C19_go2lean_fromString_other',
+    'Fit.C19.C19_go2lean_string_other']
+PROP['trusted_base'] = PROP['trusted_base'] + [
+    "translators/go2lean (Go→Lean for a small subset of Go, notes/go2lean.md) re-translates BaseType.String / basetype.FromString from the current source on every run; the agreement theorems *_go2lean_* state that the translated functions equal the hand-written model functions for all arguments; trusted: the translator's rendering of the subset (go/types computes constants and types) and FitModel/GoPrelude.lean"]
